@@ -335,6 +335,49 @@ def loop_driver(F, f, comp):
                             indefs = [d for d in f.defs_of(v) if d[0] in comp and not f.blocks[d[0]]["cleanup"]]
                             if indefs and all(decreasing(ex, d, v) for d in indefs):
                                 return "measure:%s strictly decreases" % f.names.get(v, "_%d" % v)
+    # growing-vector loops: `while v.len() < bound { .. v.push(..) .. }` with a loop-invariant bound and a push on every
+    # path round the loop: bound - len strictly decreases
+    for b in comp:
+        t = f.blocks[b]["term"]
+        if t["k"] != "switch" or not any(s not in comp for s in f.succ[b]):
+            continue
+        l = core.op_local(t["discr"])
+        ds = f.defs_of(l) if l is not None else []
+        if len(ds) != 1 or ds[0][1] == "term" or ds[0][2]["rv"]["k"] != "binop" or ds[0][2]["rv"]["op"] not in ("Lt", "Gt", "Le", "Ge", "Ne"):
+            continue
+        rv = ds[0][2]["rv"]
+        for len_side, bound_side in ((rv["a"], rv["b"]), (rv["b"], rv["a"])):
+            o = flow.origin(f, len_side)
+            if o[0] != "call" or not core.strip_generics(core.callee_path(o[2]) or "").endswith("ArrayVec::len"):
+                continue
+            vec = flow.resolve_owner(f, o[2]["args"][0])
+            bl = core.op_local(bound_side)
+            bound_const = bound_side["k"] == "const"
+            root = root_local(f, bound_side) if not bound_const else None
+            invariant = bound_const or (root is not None and not [d for d in f.defs_of(root) if d[0] in comp])
+            if vec is None or not invariant:
+                continue
+            pushes = [pb for pb in comp if f.blocks[pb]["term"]["k"] == "call" and core.strip_generics(core.callee_path(f.blocks[pb]["term"]) or "") in LEN_GROWING
+                      and flow.resolve_owner(f, f.blocks[pb]["term"]["args"][0], want_mut=True) == vec]
+            shrinks = [pb for pb in comp if f.blocks[pb]["term"]["k"] == "call" and core.strip_generics(core.callee_path(f.blocks[pb]["term"]) or "").rsplit("::", 1)[-1] in ("pop", "clear", "truncate", "remove", "set_len", "drain")
+                       and f.blocks[pb]["term"]["args"] and flow.resolve_owner(f, f.blocks[pb]["term"]["args"][0], want_mut=True) == vec]
+            # every cycle through the test block contains a push: with the push blocks removed, the test block cannot reach itself
+            def cycle_without_push():
+                seen = set()
+                work = [s2 for s2 in f.succ[b] if s2 in comp and s2 not in pushes]
+                while work:
+                    x = work.pop()
+                    if x == b:
+                        return True
+                    if x in seen:
+                        continue
+                    seen.add(x)
+                    for s2 in f.succ[x]:
+                        if s2 in comp and s2 not in pushes:
+                            work.append(s2)
+                return False
+            if pushes and not shrinks and not cycle_without_push():
+                return "measure: bound - %s.len() strictly decreases (a push on every path round the loop)" % f.names.get(vec, "_%d" % vec)
     return None
 
 
